@@ -1202,6 +1202,35 @@ class C01(PropBase):
             ctx["info"]["outcomes_by_step_" + prof] = {k: dict(sorted(v.items())) for k, v in sorted(table.items())}
             ctx["info"]["max_single_allocation_" + prof] = pkmax
             ctx["info"]["max_case_ms_" + prof] = slow
+        # round 5: how much the lookup fields had to say (debug profile): cases with a table of >= 2 entries, lookups that found an element / none,
+        # stacks by source, unified list kinds
+        try:
+            st = {"tables_ge2": 0, "found": 0, "not_found": 0, "ts_own": 0, "ts_fallback": 0, "ts_none": 0, "kind_memory64": 0, "kind_memory_list": 0, "tg_later_index": 0}
+            for c, a in zip(ctx["cases"], ctx["impl"].get("debug", [])):
+                if a is None or c == "SIZES" or a.startswith("P;;"):
+                    continue
+                f = self.fields(a)
+                for k in ("AM", "AL", "AI", "A6"):
+                    v = f.get(k, "")
+                    if v.startswith("ok:"):
+                        xs = v.split(":")[1:]
+                        st["tables_ge2"] += xs[0].isdigit() and int(xs[0]) >= 2
+                        st["found"] += sum(1 for x in xs[1:] if x != "-1")
+                        st["not_found"] += sum(1 for x in xs[1:] if x == "-1")
+                v = f.get("TS", "")
+                if v.startswith("ok:"):
+                    xs = v.split(":")[1:]
+                    st["kind_memory64"] += xs[0] == "2"
+                    st["kind_memory_list"] += xs[0] == "1"
+                    st["ts_own"] += xs[1:].count("-2")
+                    st["ts_none"] += xs[1:].count("-1")
+                    st["ts_fallback"] += sum(1 for x in xs[1:] if not x.startswith("-"))
+                v = f.get("TG", "")
+                if v.startswith("ok:"):
+                    st["tg_later_index"] += sum(1 for i, x in enumerate(v.split(":")[1:]) if x.isdigit() and int(x) > i)
+            ctx["info"]["lookup_field_stats"] = {k: int(v) for k, v in st.items()}
+        except Exception as e:      # statistics only
+            ctx["info"]["lookup_field_stats"] = "unavailable: %s" % e
         # the site scan (translate/c01_sites.py) in numbers
         try:
             txt = open(os.path.join(vlib.COQ, "C01", "Sites.v")).read()
